@@ -232,7 +232,8 @@ theorem evolves_step (op : Op) (s : Store) (h : Inv s) (hc : op.keepsClass = tru
     · exact R
     · exact withLink_pred (Evolves s) s g a b kind _ R (fun _ _ _ _ _ => evolves_of_nodes_subset s _ rfl (fun n hn => hn))
   | deleteGraph g => exact evolves_of_nodes_subset s _ rfl (fun n hn => (List.mem_filter.1 hn).1)
-  | addGraph g ig => exact evolves_addGraph g ig s
+  | addGraph g ig => exact evolves_addGraph g ig.close s
+  | delAllGraphs => exact evolves_of_nodes_subset s _ rfl (fun n hn => by simp [step, delAllGraphs] at hn)
   | addGraphDirect g ig => exact Evolves.trans (evolves_delIfPresent g s) (evolves_appendGraph _ _ _)
   | clone g g2 =>
     simp only [step, cloneGraph]
@@ -247,6 +248,8 @@ theorem evolves_step (op : Op) (s : Store) (h : Inv s) (hc : op.keepsClass = tru
       split
       · exact R
       · rename_i v hv
+        split
+        · exact R
         split
         · rename_i mine theirs hmine htheirs
           have hrel : ∀ np, Rel mine np → Evolves s (updNode u (fun _ => np) (contract u v s)) := by
